@@ -99,6 +99,34 @@ pub fn paths_agree_keys<M: Paths, const N: usize>() {
     std::mem::forget(world);
 }
 
+/// The value returned by destroy, looked at through every accessor of the Components trait:
+/// named fields, get/get_mut by type, into_tuple (declaration order) and the tuple round trip.
+pub fn returned_components<const N: usize>() {
+    use w3::*;
+    let m: Model<N> = Model::any_inv();
+    assume_no_overflow(&m);
+    let k = sym::any_usize();
+    sym::assume(k < m.len);
+    let mut world = load::<Tri, N>(&m);
+    let (key, ver) = m.handle_raw(Tri::ID, k);
+    let h: Entity<ArchTri> = EntityAny::from_raw((key, ver)).ok().unwrap().try_into().ok().unwrap();
+    let mut c = world.destroy(h).unwrap();
+    let want_pad = Pad(m.val[k] ^ 0x5a, m.aux[k]);
+    assert!(c.p.0 == m.val[k] && c.pad == want_pad, "named fields of the returned components");
+    assert!(c.get::<P>().0 == m.val[k] && *c.get::<Pad>() == want_pad && *c.get::<Zs>() == Zs, "Components::get::<C> returned another column");
+    c.get_mut::<P>().0 ^= 0xff;
+    assert!(c.p.0 == m.val[k] ^ 0xff && c.pad == want_pad, "Components::get_mut::<C> wrote another column");
+    let (tp, tpad, _tz) = c.into_tuple();
+    assert!(tp.0 == m.val[k] ^ 0xff && tpad == want_pad, "into_tuple is not in declaration order");
+    // tuple -> Components -> create: columns land where they belong
+    let comps: ArchTriComponents = (P(9), Pad(8, 7), Zs).into();
+    let e = world.arch_tri.create(comps);
+    let back: (P, Pad, Zs) = world.destroy(e).unwrap().into();
+    assert!(back.0 == P(9) && back.1 == Pad(8, 7), "tuple round trip through create/destroy mixed up columns");
+    cover!(k + 1 < m.len, "non-last entity");
+    std::mem::forget(world);
+}
+
 const R_QUERIES: u16 = 0b0000_0000_1111;
 const R_VIEWS: u16 = 0b0000_0111_0000;
 const R_SLICES: u16 = 0b1111_1000_0000;
@@ -116,6 +144,7 @@ harness! { fn c02_paths_all_tri_2() unwind(14) { paths_agree::<w3::Tri, 2>(R_ALL
 harness! { fn c02_paths_all_other_2() unwind(14) { paths_agree::<w3::Other, 2>(R_ALL) } }
 harness! { fn c02_paths_all_bar_2() unwind(14) { paths_agree::<w1::Bar, 2>(R_ALL) } }
 
+harness! { fn c02_returned_components_tri_3() unwind(5) { returned_components::<3>() } }
 harness! { fn c02_paths_keys_tri_3() unwind(7) { paths_agree_keys::<w3::Tri, 3>() } }
 harness! { fn c02_paths_keys_foo_3() unwind(7) { paths_agree_keys::<w1::Foo, 3>() } }
 harness! { fn c02_paths_keys_other_2() unwind(7) { paths_agree_keys::<w3::Other, 2>() } }
